@@ -59,8 +59,8 @@ PROPS = {
             "batch rows = per-position encodings padded with 0 under a mask of exactly the real tokens (and EMPTY = pad value, so "
             "the mask is essential). Token values are read from the regenerated constants, so the proofs are re-checked against the "
             "live vocabulary.",
-            "Coq theorem (induction over the board with decode's current-square accumulator) + regenerated vocabulary + differential correspondence in Coq",
-            "torch tensor <-> list conversions in the harness; Python negative indexing modelled faithfully outside the domain.", "6/C06"),
+            "Coq theorem (induction over the board with decode's current-square accumulator) about a model also regenerated from the source by a translator (py2coq) + regenerated vocabulary + differential correspondence in Coq",
+            "torch tensor <-> list conversions in the harness; Python negative indexing modelled faithfully outside the domain. encode and decode are additionally REGENERATED from the source (gen/EncodingGen.v, py2coq against PySem.v) and proved equal to the model for every position / every token list below 2^52 entries, so the C06 theorems are also stated about the translated source (C06_source_*).", "6/C06"),
     "C08": (True, "Full for the bookkeeping. A node-tree model with exact rationals, one simulation = one structural recursion over the "
             "descent path, the evaluator answers, root noise and sampler choices as input streams: the invariant Good (visits = 1 + "
             "children's, value = own evaluation - children's values, terminal nodes visits*outcome with outcome by winner, children "
@@ -106,8 +106,8 @@ PROPS = {
             "accepted text means what the TPS standard says pointwise (square (x,y) = the x-th expanded cell of rank size-1-y read "
             "bottom to top with the mark on the top piece; ply from move number and player) - which excludes mirrored or transposed "
             "readings; every must-refuse class is rejected; the model never crashes or answers Unspecified.",
-            "Coq theorem (parser = declarative cell/row shape, decimal printer round trip) + differential correspondence in Coq incl. grammar-directed mutations and an independent writer",
-            "Python str methods isascii/isdigit/split and int() modelled on code points (validated by the correspondence).", "6/C13"),
+            "Coq theorem (parser = declarative cell/row shape, decimal printer round trip) about a model also regenerated from the source by a translator (py2coq) + differential correspondence in Coq incl. grammar-directed mutations and an independent writer",
+            "Python str methods isascii/isdigit/split and int() modelled on code points (validated by the correspondence). parse_tps, parse_row, format_tps, _format_row, _format_square are additionally REGENERATED from the source (gen/TpsGen.v, py2coq against PySem.v) and proved equal to the model for every string / every position below the str() digit limit, so the C13 theorems are also stated about the translated source (C13_source_*).", "6/C13"),
     "C14": (True, "Full on the specified fragment. parse(format m) = m for EVERY move of sizes 3..8 (proved generally, and compared "
             "exhaustively), stability, parse s = m iff the PTN grammar relation denotes (s, m), the Unspecified class is exactly the "
             "lenient spellings, must-refuse classes rejected, and for any text rendered from tags and moves with comments, move "
